@@ -44,8 +44,7 @@ func H_C16_string_tag(t *verifrt.T) {
 	if unsigned {
 		val, fits := tok.FitsUint(8)
 		valid := and(whole, fits)
-		kf := and(accepted, !valid)
-		t.Known("D22-string-tag-payload-not-one-literal", kf)
+		t.Assert("only-one-literal-accepted", implies(accepted, valid))
 		t.Assert("valid-payload-accepted", implies(valid, accepted))
 		t.Assert("value-exact", implies(and(accepted, valid), uint64(v.U) == val))
 		t.Assert("other-member-untouched", v.A == 77)
@@ -53,8 +52,7 @@ func H_C16_string_tag(t *verifrt.T) {
 	} else {
 		val, fits := tok.FitsInt(64)
 		valid := and(whole, fits)
-		kf := and(accepted, !valid)
-		t.Known("D22-string-tag-payload-not-one-literal", kf)
+		t.Assert("only-one-literal-accepted", implies(accepted, valid))
 		t.Assert("valid-payload-accepted", implies(valid, accepted))
 		t.Assert("value-exact", implies(and(accepted, valid), v.A == val))
 		t.Assert("other-member-untouched", v.U == 77)
